@@ -516,12 +516,13 @@ def run(plugin, tier, seed, replay_path=None):
             rc, txt, cases, stats = run_driver(ctx, drivers[didx], didx, replay=rp, scale=scale, seed_shift=shift)
             if rc != 0:
                 harness_err = "driver %s exited %d:\n%s" % (drivers[didx]["driver"], rc, txt[-3000:])
+                all_cases += cases      # what it produced before it died or hung is still judged
                 break
             all_cases += cases
             for k, v in stats.items():
                 stats_all["%s.%s" % (drivers[didx]["driver"], k)] = v
         ctx.stage("drivers")
-        if harness_err is None:
+        if harness_err is None or all_cases:
             failures, judge_err = judge_cases(ctx, all_cases, plugin.JUDGE[0], plugin.JUDGE[1], getattr(plugin, "JUDGE_IMPORTS", ()), getattr(plugin, "JUDGE_SCOPE", "N_scope"))
         ctx.stage("judge")
 
